@@ -71,6 +71,7 @@ def draw_cfg(rng, engine):
         'p_check': rng.choice([0.1, 0.3]),
         'p_alias': rng.choice([0.03, 0.08, 0.15]),
         'yield_mean': rng.choice([30, 200, 1500, 8000]),
+        'p_same': rng.choice([0.0, 0.15, 0.4]),
         'hstride': 512,
         'rslots': 64,
         'p_repeat': rng.choice([0.0, 0.08, 0.2, 0.35]),
@@ -89,6 +90,7 @@ class GenSource(object):
         self.next_id = 1
         self.made = 0
         self.queues = {}
+        self.want_name = None
         w = []
         for n in NAMES:
             e = ENTRIES[n]
@@ -186,6 +188,16 @@ class GenSource(object):
         return {'name': '@edit_list', 'recv': None, 'args': [{'h': h}], 'kwargs': {}, 'path': path,
                 'value': float(new).hex()}
 
+    def _make_named(self, sim, task, depth, name):
+        e = ENTRIES.get(name)
+        if e is None or not ops.available(e.kind, e.target):
+            return None
+        g = G(self.rng, sim.pool, task, self.cfg['share'])
+        r = e.gen(g)
+        if r is None:
+            return None
+        return self._finish({'name': name, 'recv': r[0], 'args': r[1], 'kwargs': r[2]}, task, depth)
+
     def make_op(self, sim, task, depth):
         rng = self.rng
         pool = sim.pool
@@ -204,6 +216,17 @@ class GenSource(object):
             elif what == 'repeat':
                 sim.count('probe.call_repeated_with_equal_arguments')
                 return self._finish(copy.deepcopy(val), task, depth)
+            elif what == 'again':
+                op = self._make_named(sim, task, depth, val)
+                if op is not None:
+                    sim.count('probe.same_callable_again_with_other_arguments')
+                    return op
+        if self.want_name is not None:
+            name, self.want_name = self.want_name, None
+            op = self._make_named(sim, task, depth, name)
+            if op is not None:
+                sim.count('probe.same_callable_overlapping')
+                return op
         if rng.random() < self.cfg['p_alias']:
             c = []
             for k in ('Angle', 'Epoch', 'Epoch', 'Ellipsoid'):
@@ -237,7 +260,10 @@ class GenSource(object):
                     q.append(('edit', op['id']))
                 elif rng.random() < 0.75:
                     q.append(('mutate', op['id']))
-                q.append(('repeat', rep))
+                if rng.random() < 0.35:
+                    q.append(('again', name))      # same callable, freshly generated arguments
+                else:
+                    q.append(('repeat', rep))
             elif has_list and e.effect in ('capture', 'mutator_capture') and rng.random() < 0.3:
                 # the caller goes on using (editing) the list it handed to a constructor / set()
                 q.append(('edit', op['id']))
@@ -301,6 +327,9 @@ class GenSource(object):
         others = [t for t in range(self.cfg['ntasks']) if t != parent['task']]
         if not others:
             return None
+        if self.rng.random() < self.cfg['p_same'] and not parent['name'].startswith('@'):
+            # the most telling interleaving for per-function scratch state: the same callable overlapping itself
+            self.want_name = parent['name'].split('#')[0] if self.rng.random() < 0.3 else parent['name']
         return self.make_op(sim, self.rng.choice(others), 1)
 
     # ---- thread engine
@@ -310,6 +339,11 @@ class GenSource(object):
     def t_op(self, sim, task):
         if self.made >= self.cfg['nops']:
             return None
+        if self.rng.random() < self.cfg['p_same']:
+            inflight = [c.op['name'] for j, c in enumerate(sim.tcur) if j != task and c is not None
+                        and not c.op['name'].startswith('@')]
+            if inflight:
+                self.want_name = self.rng.choice(inflight)
         return self.make_op(sim, task, 0)
 
     def t_pick(self, sim, runnable, point):
